@@ -30,6 +30,30 @@ impl Scratch {
         std::fs::create_dir_all(&scratch).expect("create scratch dir");
         Scratch { root, cache, scratch }
     }
+    /// The cache directory spelled differently (same directory): trailing slash, through a
+    /// symlink, with dot segments, under a non-ASCII name. `sel` picks the spelling.
+    pub fn cache_alias(&self, sel: u64) -> PathBuf {
+        match sel % 6 {
+            1 => PathBuf::from(format!("{}/", self.cache.display())),
+            2 => {
+                let link = self.root.join("link-to-cache");
+                if std::fs::symlink_metadata(&link).is_err() {
+                    let _ = std::os::unix::fs::symlink(&self.cache, &link);
+                }
+                link
+            }
+            3 => self.cache.join("..").join("cache").join("."),
+            4 => {
+                let link = self.root.join("кэш 缓存 dir");
+                if std::fs::symlink_metadata(&link).is_err() {
+                    let _ = std::os::unix::fs::symlink(&self.cache, &link);
+                }
+                link
+            }
+            _ => self.cache.clone(),
+        }
+    }
+
     /// Empties and re-creates the directories (cheaper than a new one per case).
     pub fn reset(&self) {
         let _ = std::fs::remove_dir_all(&self.cache);
